@@ -466,6 +466,60 @@ theorem hsum256_pd_fold (a : Reg M) : hsum256Pd (· * ·) 5 1 a = ∏ l ∈ rang
 theorem hprod256_pd_fold (a : Reg M) : hprod256Pd (· * ·) 5 1 a = ∏ l ∈ range 4, a l := by
   rw [hprod256_pd_tree]; simp [Finset.prod_range_succ]; ac_rfl
 end hfoldmonoid
+
+set_option linter.unusedSimpArgs false
+section hpicklink
+open Fastor.Reduce
+variable {α : Type} [LinearOrder α]
+
+theorem ite_lt_min (a q : α) : (if decide (a < q) = true then a else q) = min a q := by
+  by_cases h : a < q
+  · simp [h, min_eq_left (le_of_lt h)]
+  · simp [h, min_eq_right (not_lt.1 h)]
+theorem ite_gt_max (a q : α) : (if decide (q < a) = true then a else q) = max a q := by
+  by_cases h : q < a
+  · simp [h, max_eq_left (le_of_lt h)]
+  · simp [h, max_eq_right (not_lt.1 h)]
+
+/-- the generic / integer horizontal `minimum()` (`hpick`, the form `min_in_input` is proved for) and the float SSE helper
+    `_mm_hmin_ps` return the same value, so `min_in_input` holds verbatim for the float path (V = 4) -/
+theorem hpick_eq_hmin_ps (v : Reg α) :
+    hpick (fun a b => decide (a < b)) 4 v = hPs min (mmShuffle 0 1 2 3) (mmShuffle 0 0 0 1) v := by
+  rw [hmin_ps_correct]
+  simp only [hpick, List.range, List.range.loop, List.foldl, ite_lt_min]
+  simp [min_comm, min_left_comm, min_assoc]
+theorem hpick_eq_hmax_ps (v : Reg α) :
+    hpick (fun a b => decide (b < a)) 4 v = hPs max (mmShuffle 0 1 2 3) (mmShuffle 0 0 0 1) v := by
+  rw [hmax_ps_correct]
+  simp only [hpick, List.range, List.range.loop, List.foldl, ite_gt_max]
+  simp [max_comm, max_left_comm, max_assoc]
+theorem hpick_eq_hmin256_ps (v : Reg α) :
+    hpick (fun a b => decide (a < b)) 8 v = h256Ps min (mmShuffle 0 1 2 3) (mmShuffle 0 0 0 1) 1 (mmShuffle 0 0 0 1) v := by
+  rw [hmin256_ps_correct]
+  simp only [hpick, List.range, List.range.loop, List.foldl, ite_lt_min]
+  simp [min_comm, min_left_comm, min_assoc]
+theorem hpick_eq_hmax256_ps (v : Reg α) :
+    hpick (fun a b => decide (b < a)) 8 v = h256Ps max (mmShuffle 0 1 2 3) (mmShuffle 0 0 0 1) 1 (mmShuffle 0 0 0 1) v := by
+  rw [hmax256_ps_correct]
+  simp only [hpick, List.range, List.range.loop, List.foldl, ite_gt_max]
+  simp [max_comm, max_left_comm, max_assoc]
+theorem hpick_eq_hmin_pd (v : Reg α) : hpick (fun a b => decide (a < b)) 2 v = hPd min 1 v := by
+  rw [hmin_pd_correct]
+  simp only [hpick, List.range, List.range.loop, List.foldl, ite_lt_min]
+  simp [min_comm, min_left_comm, min_assoc]
+theorem hpick_eq_hmax_pd (v : Reg α) : hpick (fun a b => decide (b < a)) 2 v = hPd max 1 v := by
+  rw [hmax_pd_correct]
+  simp only [hpick, List.range, List.range.loop, List.foldl, ite_gt_max]
+  simp [max_comm, max_left_comm, max_assoc]
+theorem hpick_eq_hmin256_pd (v : Reg α) : hpick (fun a b => decide (a < b)) 4 v = h256Pd min 1 5 (mmShuffle 0 0 0 1) v := by
+  rw [hmin256_pd_correct]
+  simp only [hpick, List.range, List.range.loop, List.foldl, ite_lt_min]
+  simp [min_comm, min_left_comm, min_assoc]
+theorem hpick_eq_hmax256_pd (v : Reg α) : hpick (fun a b => decide (b < a)) 4 v = h256Pd max 1 5 (mmShuffle 0 0 0 1) v := by
+  rw [hmax256_pd_correct]
+  simp only [hpick, List.range, List.range.loop, List.foldl, ite_gt_max]
+  simp [max_comm, max_left_comm, max_assoc]
+end hpicklink
 end horizontal
 
 /-! ## determinants -/
